@@ -3,36 +3,52 @@ from __future__ import annotations
 
 import math
 import random
+import re
 import struct
 from typing import Any
 
 from harness.common import Ck
 from translate import c04_formulas as tr
+from translate import c04_inverse as tri
 
 MANIFEST = dict(
-    technique='Rocq proof over R (ring/field/nsatz/nra) on formulas and a dispatch table regenerated from math.py by an ast '
-              'symbolic executor + bit-exact correspondence of the extracted expression trees + numeric oracle on the '
-              'complete operand-type matrix',
-    text='Theorems in Props/C04.v, about the expression trees read out of MatrixBase.from_angle/from_pitch/from_yaw/from_roll/'
-         '_mat_mul/_vec_rot/transpose/_to_angle on every run: from_angle is orthonormal with determinant 1 and equals '
-         'roll*pitch*yaw in the row-vector convention (axes fixed, handedness at +90 degrees); _mat_mul and _vec_rot are '
-         'associative, also when both operands are one object; transpose is the unique two-sided inverse of a rotation; '
+    technique='Rocq proof over R (ring/field/nsatz/nra) on formulas, a dispatch table and a Gauss-Jordan row-operation '
+              'program regenerated from math.py by ast symbolic executors / loop unrolling; generic theorems + kernel-checked '
+              'instance obligations (table_ok, gj_prog_ok by abstract interpretation, guard_cfg_ok, aliasing polynomials); '
+              'bit-exact correspondence of the extracted expression trees, of every dispatch row, and of the Gauss-Jordan '
+              'interpreter instantiated with IEEE binary64 (Coq primitive floats); numeric oracle on the complete '
+              'operand-type matrix',
+    text='Theorems in Props/C04.v, about the objects read out of MatrixBase.from_angle/from_pitch/from_yaw/from_roll/'
+         '_mat_mul/_vec_rot/transpose/_to_angle/inverse and the @ methods on every run: from_angle is orthonormal with '
+         'determinant 1 and equals roll*pitch*yaw in the row-vector convention (axes fixed, handedness at +90 degrees); '
+         '_mat_mul and _vec_rot are associative, also when both operands are one object; transpose is the unique two-sided '
+         'inverse of a rotation; for EVERY straight-line program of pivot-search/row-swap, row-elimination and row-scaling '
+         'operations accepted by the decidable test gj_prog_ok (abstract interpretation of the left block over {0,1,unknown}), '
+         'whenever the interpreter of the program over the reals returns n for input m then n*m = I, hence n = transpose(m) '
+         'for a rotation m; the program unrolled from today\'s MatrixBase.inverse is accepted (instance obligations); '
          'Matrix->Angle->Matrix is the identity when the horizontal length of the forward row exceeds 0.001 and within '
-         '2*that length entrywise otherwise (atan2 enters as a visible hypothesis); for every (operator form, left class, '
-         'right class, same-object?) the dispatch table generated from __matmul__/__rmatmul__/__imatmul__ returns the '
-         'specification product, a fresh result and unchanged operands (kernel-checked table_ok = true + generic soundness '
-         'theorem).  The trees and the table are compared bit-for-bit with the running implementation; all identities are '
-         'searched numerically within 1e-9*max(1,|v|).',
-    note='Exact real arithmetic: floating-point rounding is outside the model (the property says "up to rounding"); axioms: '
-         'the classical-reals axioms of Coq.Reals only.  Trusted: translate/c04_formulas.py (symbolic executor for '
-         'straight-line arithmetic and for the small object language of the @ methods; tied by the bit-exact correspondence), '
-         'libm sin/cos/atan2/sqrt.  inverse() (Gauss-Jordan) is searched, not modelled: the theorem shows that ANY inverse '
-         'of a rotation equals the transpose.  The Cython twin _math.pyx cannot be built and is not verified.',
+         '2*that length entrywise otherwise (atan2 enters as a visible hypothesis); the guard of _to_angle, reified as '
+         '(operator, operand polynomial under sqrt, literal), is the engine threshold whenever the three named obligations '
+         'hold; for every (operator form, left class, right class, same-object?) the dispatch table generated from '
+         '__matmul__/__rmatmul__/__imatmul__ returns the specification product, a fresh result and unchanged operands '
+         '(kernel-checked table_ok = true + generic soundness theorem).  The trees, the table and the inverse program are '
+         'compared bit-for-bit with the running implementation; all identities are searched numerically within '
+         '1e-9*max(1,|v|).',
+    note='Exact real arithmetic: floating-point rounding is outside the theorems (the property says "up to rounding"); the '
+         'binary64 instance of the Gauss-Jordan interpreter is used only for the correspondence.  Axioms: the classical-reals '
+         'axioms of Coq.Reals only.  Trusted: translate/c04_formulas.py, translate/c04_inverse.py (symbolic executors / loop '
+         'unroller; tied by the bit-exact correspondences; the polynomial expansion of the reified pieces is re-proved by ring), '
+         'libm sin/cos/atan2/sqrt, Coq primitive floats = hardware binary64.  NOT proved: that inverse() returns (does not '
+         'raise) on every rotation - searched only (oracle: inverse() vs transpose() on every sampled rotation, inverse() of '
+         'scaled rotations is a two-sided inverse); so a too-large diagonal threshold or a pivot search that skips rows is '
+         'caught by the search, not by an obligation.  The Cython twin _math.pyx cannot be built and is not verified.',
 )
 
 CONCRETE = tr.CONCRETE
 KIND = tr.KIND
 DISP_IMPORTS = ['Coq.Lists.List', 'Coq.Bool.Bool', 'SV.Rot.RotDispatch', 'SV.Gen.RotDispatch_gen']
+REIFY_IMPORTS = ['Coq.Lists.List', 'Coq.Bool.Bool', 'SV.Rot.RotReify', 'SV.Gen.RotReified_gen']
+GJ_IMPORTS = ['Coq.Lists.List', 'Coq.Bool.Bool', 'SV.Rot.RotGJ', 'SV.Gen.RotInverse_gen']
 TOL = 1e-9
 GIMBAL = 0.001
 
@@ -357,6 +373,129 @@ def corr_dispatch(ck: Ck, F: dict, rows: list[dict]) -> None:
         ck.extra['dispatch_disagreements'] = bad
 
 
+
+# =============================================================================================== inverse(): Gauss-Jordan
+def coq_float(x: float) -> str:
+    """An IEEE double as an exact Coq primitive-float term."""
+    if x != x:
+        return 'nan'
+    if x == math.inf:
+        return 'infinity'
+    if x == -math.inf:
+        return 'neg_infinity'
+    h = abs(x).hex()
+    return f'(opp {h})' if math.copysign(1.0, x) < 0 else h
+
+
+def gen_inverse_input(rng: random.Random) -> tuple[list[float], str]:
+    """One input matrix for inverse() with the name of its class."""
+    from srctools.math import Matrix
+    r = rng.random()
+    if r < 0.30:
+        (p, y, q), cls = gen_angle(rng)
+        return list(snapshot(Matrix.from_angle(p, y, q))), 'rotation-' + cls
+    if r < 0.45:
+        return [rng.uniform(-3, 3) for _ in range(9)], 'random'
+    if r < 0.55:      # small integers: many exact ties in the pivot search, many singular matrices
+        return [float(rng.randint(-2, 2)) for _ in range(9)], 'small-integers'
+    if r < 0.63:      # rank 2: third row is a combination of the first two
+        a, b = [rng.uniform(-2, 2) for _ in range(3)], [rng.uniform(-2, 2) for _ in range(3)]
+        k, l = rng.choice([0.0, 1.0, -1.0, rng.uniform(-2, 2)]), rng.choice([0.0, 1.0, rng.uniform(-2, 2)])
+        rows = [a, b, [k * x + l * y for x, y in zip(a, b)]]
+        rng.shuffle(rows)
+        return [x for row in rows for x in row], 'rank-2'
+    if r < 0.68:
+        a = [rng.uniform(-2, 2) for _ in range(3)]
+        return [k * x for k in (1.0, rng.uniform(-2, 2), rng.choice([0.0, 2.0])) for x in a], 'rank-1'
+    if r < 0.76:      # signed permutation matrices scaled: every pivot search needs a swap
+        perm = [0, 1, 2]
+        rng.shuffle(perm)
+        m = [0.0] * 9
+        for i, j in enumerate(perm):
+            m[3 * i + j] = rng.choice([1.0, -1.0]) * rng.choice([1.0, 2.0, 0.5, 1e-3, 1e3])
+        return m, 'permutation'
+    if r < 0.86:      # diagonal entries around the 1e-5 threshold
+        d = [rng.choice([1e-5, 0.99e-5, 1.01e-5, 9.999999999999999e-06, 1.0000000000000003e-05, -1e-5, 1.0, 3.0]) for _ in range(3)]
+        m = [rng.uniform(-1e-7, 1e-7) if rng.random() < 0.3 else 0.0 for _ in range(9)]
+        for i in range(3):
+            m[4 * i] = d[i]
+        return m, 'near-threshold'
+    if r < 0.93:      # wide range of magnitudes
+        return [rng.choice([-1, 1]) * 10.0 ** rng.uniform(-150, 150) for _ in range(9)], 'extreme-magnitude'
+    if r < 0.97:      # zeros and negative zeros
+        return [rng.choice([0.0, -0.0, 1.0, -1.0, 0.5]) for _ in range(9)], 'signed-zeros'
+    m = [rng.uniform(-3, 3) for _ in range(9)]
+    m[rng.randrange(9)] = rng.choice([math.inf, -math.inf, math.nan])
+    return m, 'non-finite'
+
+
+def run_inverse(vals: list[float]) -> tuple[str, list[float] | None]:
+    """What MatrixBase.inverse does on the raw nine values: ('ok', nine doubles) / ('noinverse', None) /
+    ('zerodiv', None); anything else is returned as ('other:<exception>', None)."""
+    try:
+        inv = raw_matrix(vals).inverse()
+    except ZeroDivisionError:
+        return 'zerodiv', None
+    except ArithmeticError as e:
+        return ('noinverse' if 'no inverse' in str(e) else f'other:{e!r}'), None
+    except Exception as e:    # noqa: BLE001
+        return f'other:{type(e).__name__}: {e}', None
+    return 'ok', list(snapshot(inv))
+
+
+INVERSE_CORPUS = [
+    [1.0, 0.0, 0.0, 0.0, 1.0, 0.0, 0.0, 0.0, 1.0], [2.0, 1.0, 0.0, 0.5, 3.0, 1.0, 0.0, 1.0, 4.0],
+    [0.0, 0.0, 1.0, 1.0, 0.0, 0.0, 0.0, 1.0, 0.0], [1.0, 2.0, 3.0, 2.0, 4.0, 6.0, 1.0, 0.0, 1.0],
+    [0.0] * 9, [1.0, 2.0, 3.0, 4.0, 5.0, 6.0, 7.0, 8.0, 9.0], [1.0, 0.0, 0.0, 0.0, 1.0, 0.0, 0.0, 0.0, 1e-5],
+    [1.0, 0.0, 0.0, 0.0, 1.0, 0.0, 0.0, 0.0, 1.0000000000000003e-05], [-1.0, 1.0, 0.0, 1.0, 1.0, 0.0, 0.0, 0.0, -0.0],
+]
+
+
+def corr_inverse(ck: Ck) -> None:
+    """The generic interpreter of the GENERATED program, instantiated with IEEE binary64 in Coq, against
+    MatrixBase.inverse: nine result doubles bit for bit, or the same exception."""
+    n = ck.budget(400, 4000)
+    cases: list[tuple[list[float], str, list[float] | None, str]] = []
+    for i in range(n):
+        vals, cls = (INVERSE_CORPUS[i], 'corpus') if i < len(INVERSE_CORPUS) else gen_inverse_input(ck.rng)
+        kind, res = run_inverse(vals)
+        ck.count('inverse_correspondence_cases')
+        ck.hist('inverse_input_class', cls)
+        ck.hist('inverse_outcome', kind.split(':')[0])
+        ck.seen(('inv', tuple(bits(v) for v in vals)))
+        cases.append((vals, kind, res, cls))
+    bad: list[dict] = []
+    for c in cases:
+        if c[1].startswith('other'):
+            bad.append({'input': c[0], 'class': c[3], 'implementation': c[1], 'model': 'cannot raise this'})
+    failed_eval = False
+    for lo in range(0, len(cases), 500):
+        chunk = cases[lo:lo + 500]
+        items = []
+        for vals, kind, res, _ in chunk:
+            exp = 'IOk [' + '; '.join(coq_float(x) for x in res) + ']' if kind == 'ok' else \
+                  'INoInverse' if kind == 'noinverse' else 'IZeroDiv'
+            items.append('([' + '; '.join(coq_float(x) for x in vals) + '], ' + exp + ')')
+        pre = ('Import ListNotations.\nOpen Scope float_scope.\nDefinition cases : list (list float * impl_res) := [\n'
+               + ';\n'.join(items) + '].\n')
+        vals_ = ck.coq_eval(['Coq.Floats.Floats', 'Coq.Lists.List', 'SV.Rot.RotGJ', 'SV.Rot.RotGJFloat', 'SV.Gen.RotInverse_gen'],
+                            ['disagreements inverse_prog 0 cases'], name='gjfloat', preamble=pre)
+        if vals_ is None:
+            failed_eval = True
+            break
+        idxs = [int(x) for x in re.findall(r'\d+', vals_[0])]
+        for k in idxs:
+            if len(bad) < 6:
+                vals, kind, res, cls = chunk[k]
+                bad.append({'input': vals, 'class': cls, 'implementation': kind if res is None else res})
+    ck.obligation('correspondence:inverse', not bad and not failed_eval,
+                  f'{len(cases)} matrices: Rot/RotGJ.v interpreter on the generated program over IEEE binary64 vs '
+                  f'MatrixBase.inverse, result bit for bit or same exception: '
+                  + ('could not be evaluated' if failed_eval else f'{len(bad)}+ disagreements'))
+    if bad or failed_eval:
+        ck.tie_broken.append('correspondence inverse (Gauss-Jordan interpreter over binary64 vs implementation)')
+        ck.extra['inverse_disagreements'] = bad
+
 # =============================================================================================== oracle search
 def tri_key(problem: str, lc: str, alias: bool) -> str:
     return f'{problem}:{lc}' + (':same-object' if alias else '')
@@ -487,6 +626,18 @@ def ident_problems(p: float, y: float, r: float, v: tuple, q: tuple) -> list[tup
             out.append(('inverse-vs-transpose', f'inverse() and transpose() of from_angle({p},{y},{r}) differ by {e:.3g}'))
     except ArithmeticError as ex:
         out.append(('inverse-vs-transpose', f'inverse() of the rotation from_angle({p},{y},{r}) raised {ex}'))
+    # inverse() of a general well-conditioned matrix (rows of M scaled by 0.5 .. 2.5) is a two-sided inverse
+    sc = [0.5 + (abs(x) % 2.0) for x in v]
+    kvals = [m[i][j] * sc[i] for i in range(3) for j in range(3)]
+    K = raw_matrix(kvals)
+    try:
+        Ki = K.inverse()
+        kl, kr, ki = mat_list(K), None, mat_list(Ki)
+        e = max(maxdiff(ref_mul(ki, kl), [[1, 0, 0], [0, 1, 0], [0, 0, 1]]), maxdiff(ref_mul(kl, ki), [[1, 0, 0], [0, 1, 0], [0, 0, 1]]))
+        if not e <= 1e-8:
+            out.append(('inverse-not-inverse', f'inverse() of the scaled rotation {kvals} times the matrix differs from the identity by {e:.3g}'))
+    except ArithmeticError as ex:
+        out.append(('inverse-not-inverse', f'inverse() of the invertible matrix {kvals} raised {type(ex).__name__}: {ex}'))
     e = maxdiff(mat_list(M.transpose()), ref_T(m))
     if e != 0.0:
         out.append(('transpose-formula', f'transpose() is not the transpose (difference {e:.3g})'))
@@ -631,26 +782,43 @@ def run(ck: Ck) -> None:
                'non-trivial = not the identity rotation; distinct by the full tuple of numbers.  Operand matrix: every '
                '(form, left class, right class, same object?) of 3 x 7 x 7 (+6 aliased), each with fresh random values; '
                'non-trivial = supported operand kinds.  Formula correspondence: random and near-pole matrices, 30% of them '
-               'not rotations; distinct by inputs.  Thorough adds the full 24^3 grid of multiples of 15 degrees.')
+               'not rotations; distinct by inputs.  Thorough adds the full 24^3 grid of multiples of 15 degrees.  inverse() '
+               'correspondence: 14 input classes (rotations of the four angle classes, random, small integers with exact '
+               'pivot ties, rank 2, rank 1, scaled signed permutations, diagonals around the 1e-5 threshold, magnitudes '
+               '1e-150..1e150, signed zeros, one inf/nan entry, corpus); distinct by the bit patterns of the nine inputs; all '
+               'three outcomes (result / no-inverse / ZeroDivisionError) occur.')
     ck.assumptions += [
         'Arithmetic in the theorems is over the real numbers; IEEE rounding is outside the model (property: "up to rounding"). '
         'The numeric oracle bounds the rounding error by 1e-9*max(1,|v|) on the sampled inputs only.',
         'libm atan2 enters the Euler theorems as the hypothesis atan2_spec (cos/sin of atan2 y x are x/|(x,y)|, y/|(x,y)| away '
         'from the origin); math.radians/degrees are d*PI/180 and t*180/PI; float % 360 is x - 360*floor(x/360).',
-        'The float literal 0.001 is read as the rational 1/1000.',
+        'The float literals 0.001 and 0.00001 are read as the rationals 1/1000 and 1/100000.',
+        'inverse(): the theorems say what inverse() returns WHEN it returns; that it returns on every rotation is searched only.',
+        'Vec arithmetic used by inverse() (-=, *, /= generated by exec() templates, componentwise) is not translated; it is '
+        'covered by the bit-exact correspondence of the whole method.',
     ]
     ck.trusted += ['translate/c04_formulas.py symbolic executors (formulas: tied bit-for-bit to the implementation on every run; '
                    'dispatch: every table row compared with the implementation on every run)',
-                   'Coq.Reals classical axioms (listed per theorem in axioms_per_theorem)']
+                   'Coq.Reals classical axioms (listed per theorem in axioms_per_theorem)',
+                   'translate/c04_inverse.py loop unroller for MatrixBase.inverse (tied: the interpreter of the generated program '
+                   'over IEEE binary64 is compared bit for bit with inverse() on every run)',
+                   'Coq primitive floats (PrimFloat: sub, mul, div, abs, ltb, leb, eqb) are the IEEE binary64 operations of the CPU, '
+                   'as are CPython float operations',
+                   'translate/c04_formulas.py polynomial expansion of the reified guard / _mat_mul entries (re-proved by ring '
+                   'against the generated formulas in Rot/RotReifyProofs.v on every build)']
     ok_f = ck.translate('RotFormulas_gen', tr.translate_formulas)
     ok_d = ck.translate('RotDispatch_gen', tr.translate_dispatch)
+    ok_i = ck.translate('RotInverse_gen', tri.translate_inverse)
+    ok_r = ok_f and ck.translate('RotReified_gen', tr.translate_reified)
     A = tr.analyse() if (ok_f and ok_d) else None
     built = False
-    if A is not None:
-        core = ck.build(['Rot/RotAlgebra.vo', 'Rot/RotEulerProofs.vo', 'Rot/RotDispatchProofs.vo', 'Gen/RotDispatch_gen.vo'])
-        built = core and ck.build(['Props/C04.vo'])
-        if built:
-            theorems_with_axioms(ck)
+    # 1. models and generated objects (definitions only: these compile whatever the source computes)
+    models = ck.build(['Rot/RotGJ.vo', 'Rot/RotGJFloat.vo', 'Rot/RotDispatch.vo', 'Rot/RotReify.vo']
+                      + (['Gen/RotFormulas_gen.vo', 'Gen/RotDispatch_gen.vo'] if A is not None else [])
+                      + (['Gen/RotReified_gen.vo'] if ok_r else [])
+                      + (['Gen/RotInverse_gen.vo'] if ok_i else []))
+    # 2. instance obligations: the generated objects are accepted by the decidable tests of the generic theorems
+    if A is not None and models:
         ck.instance_obligations(DISP_IMPORTS, {
             'dispatch_matmul_rows_ok': 'forallb (fun t => triple_ok t && handled t) (rows_of FMatmul dispatch_table)',
             'dispatch_imatmul_rows_ok': 'forallb (fun t => triple_ok t && handled t) (rows_of FImatmul dispatch_table)',
@@ -663,8 +831,42 @@ def run(ck: Ck) -> None:
             ck.extra['dispatch_rows_rejected'] = vals[0]
         ck.extra['dispatch_table_rows'] = len(A['rows'])
         ck.extra['mat_mul_alias_safe'] = A['F']['mat_mul_alias_safe']
+    if ok_r and models:
+        ck.instance_obligations(REIFY_IMPORTS, {
+            'to_angle_guard_operator_is_gt': 'guard_operator_ok ta_guard_cfg',
+            'to_angle_guard_literal_is_0_001': 'guard_literal_ok ta_guard_cfg',
+            'to_angle_guard_operand_is_horizontal_length': 'guard_operand_ok ta_guard_cfg',
+            'mat_mul_alias_row_a': 'alias_row_ok 0 mat_mul_self_polys mat_mul_ss_polys',
+            'mat_mul_alias_row_b': 'alias_row_ok 1 mat_mul_self_polys mat_mul_ss_polys',
+            'mat_mul_alias_row_c': 'alias_row_ok 2 mat_mul_self_polys mat_mul_ss_polys',
+            'mat_mul_alias_safe': 'polys_eqb mat_mul_self_polys mat_mul_ss_polys',
+        }, name='reify')
+    if ok_i and models:
+        ck.instance_obligations(GJ_IMPORTS, {
+            'inverse_left_block_is_self': 'init_l_ok inverse_prog',
+            'inverse_right_block_starts_as_identity': 'init_r_ok inverse_prog',
+            'inverse_result_is_right_block': 'out_ok inverse_prog',
+            'inverse_indexes_in_range': 'ops_in_range inverse_prog',
+            'inverse_left_block_becomes_identity': 'left_becomes_identity inverse_prog',
+            'inverse_prog_ok': 'gj_prog_ok inverse_prog',
+        }, name='gj')
+        vals = ck.coq_eval(GJ_IMPORTS, ['abs_run (gp_ops inverse_prog) top3'], name='gjabs')
+        if vals is not None:
+            ck.extra['inverse_left_block_final_pattern'] = vals[0]
+        ck.extra['inverse_program'] = [tri.coq_op(o) for o in tri.analyse()['P']['ops']]
+    # 3. the proofs about the generated formulas
+    if A is not None and models:
+        core = ck.build(['Rot/RotAlgebra.vo', 'Rot/RotAliasProofs.vo', 'Rot/RotEulerProofs.vo', 'Rot/RotDispatchProofs.vo',
+                         'Rot/RotGJProofs.vo', 'Rot/RotGJExample.vo'] + (['Rot/RotReifyProofs.vo'] if ok_r else []))
+        built = core and ck.build(['Props/C04.vo'])
+        if built:
+            theorems_with_axioms(ck)
+    # 4. correspondences
+    if A is not None:
         corr_formulas(ck, A['F'])
         corr_dispatch(ck, A['F'], A['rows'])
+    if ok_i and models:
+        corr_inverse(ck)
     found: dict[str, tuple[str, dict]] = {}
     search_operands(ck, found)
     search_identities(ck, found)
@@ -675,6 +877,15 @@ def run(ck: Ck) -> None:
     if any(k.startswith(('left-operand-mutated', 'right-operand-mutated', 'result-not-fresh', 'value-mismatch', 'unsupported',
                          'exception', 'result-kind')) for k in keys):
         ck.explain('instance:dispatch_')
+    if any(k.startswith(('euler-roundtrip', 'gimbal-bound', 'assoc-vec-angle', 'value-mismatch:Angle', 'value-mismatch:FrozenAngle'))
+           for k in keys):
+        ck.explain('instance:to_angle_guard_')
+    if any(k.startswith('value-mismatch:Matrix:same-object') for k in keys):
+        ck.explain('instance:mat_mul_alias_')
+    if any(k.startswith('inverse-') for k in keys):
+        ck.explain('instance:inverse_')
+        # the translator could not read inverse() (fail closed) AND the search exhibits a concrete wrong inverse
+        ck.explain('translate:RotInverse_gen')
     explain_build(ck, keys)
 
 
@@ -694,6 +905,10 @@ LEMMA_EXPLAINED_BY = {
     'mat_mul_self_eq': ('value-mismatch:Matrix:same-object',),
     'ta_guard_horiz': ('euler-roundtrip', 'gimbal-bound'), 'euler_roundtrip': ('euler-roundtrip',),
     'gimbal_error_bound': ('gimbal-bound',),
+    'rowrel_elim': ('assoc-vec-matrix', 'value-mismatch:Vec', 'inverse-'), 'rowrel_scale': ('assoc-vec-matrix', 'value-mismatch:Vec', 'inverse-'),
+    'gauss_jordan_inverse': ('assoc-vec-matrix', 'assoc-matrix', 'value-mismatch:Matrix', 'inverse-'),
+    'ta_guard_tied': ('euler-roundtrip', 'gimbal-bound'), 'mat_mul_self_tied': ('value-mismatch:Matrix:same-object',),
+    'mat_mul_ss_tied': ('assoc-matrix', 'value-mismatch:Matrix'),
 }
 
 
